@@ -1,5 +1,5 @@
 #!/bin/bash
-# tools/trymut.sh <patch.diff|-e 'sed-expr' file> -- ./check CNN --tier quick
+# tools/trymut.sh <patch.diff | -e 'sed-expr' file | -x 'shell command run inside the worktree'> -- ./check CNN --tier quick
 # Applies a change to a scratch worktree of /repo (never /repo itself), runs the
 # given command with VERIF_REPO pointing at it, then removes the worktree.
 set -u
@@ -9,7 +9,10 @@ git -C /repo worktree add -q --detach "$wt" HEAD || exit 2
 # carry uncommitted changes of /repo's working tree over too
 git -C /repo diff HEAD | git -C "$wt" apply --allow-empty 2>/dev/null
 trap 'git -C /repo worktree remove --force "$wt" >/dev/null 2>&1; rm -rf "$wt"' EXIT
-if [ "$1" = "-e" ]; then
+if [ "$1" = "-x" ]; then
+  (cd "$wt" && bash -c "$2") || exit 2
+  shift 2
+elif [ "$1" = "-e" ]; then
   sed -i -E "$2" "$wt/$3" || exit 2
   shift 3
 else
